@@ -924,14 +924,18 @@ def gen_encconst(repo):
     zero_guard = 'if rhs == N::default() { return None; }' in n
     need(r'fn exact_div<N>\(n: N, rhs: N\) -> Option<N>', 'exact_div')
     out.append(f'/-- does `exact_div` refuse a zero divisor (instead of dividing by it)? -/\ndef encExactDivGuardsZero : Bool := {"true" if zero_guard else "false"}\n')
-    meta = ' '.join(strip_comments(open(os.path.join(repo, 'src/metadata/mod.rs')).read()).split())
-    if 'w.write::<5, u32>(u32::from(self.bits_per_sample) - 1)?;' in meta:
-        d1 = 'true'
-    elif 'self.bits_per_sample .checked_sub::<0b11111>(1) .unwrap() .count(),' in meta:
-        d1 = 'false'
-    else:
-        raise ExtractError('ToBitStream for Streaminfo: bits-per-sample field changed shape')
-    out.append(f'/-- can `ToBitStream for Streaminfo` write a 1-bit depth (false = it unwraps `checked_sub(1)` of a signed bit count)? -/\ndef metaDepthOneWritable : Bool := {d1}\n')
+    out.append('end Flac.Gen')
+    return '\n'.join(out) + '\n'
+
+def gen_par(repo):
+    """facts about the parallel feature of encode.rs (C18)"""
+    n = ' '.join(strip_comments(open(os.path.join(repo, 'src/encode.rs')).read()).split())
+    out = ['/- GENERATED by tools/translate.py from src/encode.rs (parallel feature) — do not edit -/', 'namespace Flac.Gen', '']
+    def need(pat, what):
+        m = re.search(pat, n)
+        if not m:
+            raise ExtractError(f'{what}: expected shape not found')
+        return m
     # parallel sites (C18)
     raw = strip_comments(open(os.path.join(repo, 'src/encode.rs')).read())
     bad = [t for t in ['Mutex', 'RwLock', 'Atomic', 'static mut', 'thread_local', 'UnsafeCell', 'RefCell', 'unsafe ', 'Cell<', 'OnceLock', 'OnceCell', 'lazy_static', 'Condvar', 'mpsc'] if t in raw]
@@ -969,6 +973,13 @@ def gen_meta(repo):
         else:
             raise ExtractError(f'{what}: neither known shape found')
         out.append(f'/-- {doc} -/\ndef {name} : Bool := {v}\n')
+    if 'w.write::<5, u32>(u32::from(self.bits_per_sample) - 1)?;' in meta:
+        d1 = 'true'
+    elif 'self.bits_per_sample .checked_sub::<0b11111>(1) .unwrap() .count(),' in meta:
+        d1 = 'false'
+    else:
+        raise ExtractError('ToBitStream for Streaminfo: bits-per-sample field changed shape')
+    out.append(f'/-- can `ToBitStream for Streaminfo` write a 1-bit depth (false = it unwraps `checked_sub(1)` of a signed bit count)? -/\ndef metaDepthOneWritable : Bool := {d1}\n')
     # block type codes
     body = need(meta, r'pub enum BlockType \{(.*?)\}', 'BlockType').group(1)
     codes = re.findall(r'(\w+) = (\d+),', body)
@@ -1055,10 +1066,76 @@ def gen_meta(repo):
     flag('seekMaxOffsetRefused', 'does the SEEKTABLE writer refuse a defined point at offset u64::MAX (false = it is written and reads back as a placeholder)?',
          '_ if point.sample_offset() == Some(u64::MAX) => Err(Error::InvalidSeekTablePoint), None => {',
          '.try_for_each(|point| match last_offset.as_mut() { None => {', 'ToBitStream for SeekTable')
+    for nm, frag, doc in [
+        ('shapePlaceholderSkips10Bytes', 'u64::MAX => { let _byte_offset = r.read_to::<u64>()?; let _frame_samples = r.read_to::<u16>()?; Ok(Self::Placeholder) }',
+         'a placeholder seek point consumes its 8 + 2 trailing bytes'),
+        ('shapeRebuildWritesAll', 'rebuilt() .and_then(|mut f| f.write_all(tmp.as_slice())) .map_err(Error::Io)', 'the rebuild path writes the whole new file with `write_all`'),
+        ('shapeUnquoteGuarded', "if s.len() > 1 && s.starts_with('\"') && s.ends_with('\"') { &s[1..s.len() - 1] } else { s }", '`unquote` only strips quotes from values longer than one character'),
+    ]:
+        if frag not in meta:
+            raise ExtractError(f'{nm}: the mirrored source shape is gone: {frag[:90]}')
+        out.append(f'/-- {doc} -/\ndef {nm} : Bool := true\n')
+    for nm, a1, a2, doc in [('shapeCueFlagOrder', 'w.write_bit(self.non_audio)?; w.write_bit(self.pre_emphasis)?; w.pad(6 + 13 * 8)?;', 'let non_audio = r.read_bit()?; let pre_emphasis = r.read_bit()?; r.skip(6 + 13 * 8)?;',
+                             'all four cue sheet track writers and readers put non_audio before pre_emphasis')]:
+        if cue.count(a1) != 4 or cue.count(a2) != 4:
+            raise ExtractError(f'{nm}: expected 4 writers and 4 readers with this flag order')
+        out.append(f'/-- {doc} -/\ndef {nm} : Bool := true\n')
     flag('metaUpdateFlushes', 'does the in-place path of `update_file` flush its buffered writer and report the result (false = the writer is dropped unflushed)?',
          ['let mut w = BufWriter::new(w); write_blocks(&mut w, blocks)?; w.flush().map_err(Error::Io)', 'write_in_place(original, blocks) .map(|()| false) .map_err(E::from)'], 'write_blocks(BufWriter::new(original), blocks) .map(|()| false) .map_err(E::from)', 'update_file in-place write')
     out.append('end Flac.Gen')
     return '\n'.join(out) + '\n'
+
+# ------------------------------------------------------------------------------------------------
+# shape tripwires: places where the hand-written model mirrors a specific piece of source text.  Each
+# is a literal fragment of the comment-stripped, whitespace-normalised source; a file fails to
+# regenerate when one of its fragments is gone, and the properties whose model imports that file
+# then report a broken obligation.
+# ------------------------------------------------------------------------------------------------
+def _norm(repo, f):
+    return ' '.join(strip_comments(open(os.path.join(repo, 'src', f)).read()).split())
+
+def _shapes(repo, title, items):
+    out = [f'/- GENERATED by tools/translate.py ({title}) — do not edit -/', 'namespace Flac.Gen', '']
+    cache = {}
+    for name, f, frag, doc in items:
+        if f not in cache:
+            cache[f] = _norm(repo, f)
+        if frag not in cache[f]:
+            raise ExtractError(f'{name}: {f}: the mirrored source shape is gone: {frag[:90]}')
+        out.append(f'/-- {doc} -/\ndef {name} : Bool := true\n')
+    out.append('end Flac.Gen')
+    return '\n'.join(out) + '\n'
+
+def gen_shapes_hdr(repo):
+    return _shapes(repo, 'frame header shapes mirrored by Model/Frame.lean', [
+        ('shapeBlockSize16Checked', 'stream.rs', 'BlockSize::Uncommon16(()) => Ok(Self::Uncommon16( r.read::<16, u16>()? .checked_add(1) .ok_or(Error::InvalidBlockSize)?, )),',
+         'the 16-bit block-size-minus-one field is incremented with `checked_add` (65536 is an invalid block size)'),
+        ('shapeBlockSize8', 'stream.rs', 'BlockSize::Uncommon8(()) => Ok(Self::Uncommon8(r.read::<8, u16>()? + 1)),', 'the 8-bit block-size field is the size minus one'),
+        ('shapeChannelsMustEqual', 'stream.rs', '(h.channel_assignment.count() == streaminfo.channels.get()) .then_some(h) .ok_or(Error::ChannelsMismatch)',
+         'a frame must have exactly the channel count STREAMINFO declares'),
+    ])
+
+def gen_shapes_rd(repo):
+    return _shapes(repo, 'reader shapes mirrored by Model/Readers.lean, Model/StreamReader.lean, Model/FileDecode.lean', [
+        ('shapeSampleReadRefillsWhenEmpty', 'decode.rs', 'if self.buf.is_empty() { match self.decoder.read_frame()? { Some(frame) => { self.buf.extend(frame.iter()); } None => return Ok(0), } } let to_consume = samples.len().min(self.buf.len());',
+         '`FlacSampleReader::read` decodes the next frame only when its buffer is empty'),
+        ('shapeNoSeektableRewinds', 'decode.rs', 'self.reader.seek(SeekFrom::Start(frames_start))?; self.current_sample = 0; Ok(0)',
+         'a seek without a usable seek point rewinds to the first frame and resets the sample position'),
+        ('shapeStreamResyncKeepsByte', 'decode.rs', 'if let Ok(header) = FrameHeader::read_subset(&mut crc_reader) { break (header, crc_reader); } } Ok(_) => continue,',
+         '`FlacStreamReader::read` does not consume the byte it peeked after a 0xFF that is not followed by the second sync byte'),
+        ('shapeCounterCountsBytesRead', 'lib.rs', 'fn read(&mut self, buf: &mut [u8]) -> std::io::Result<usize> { self.stream.read(buf).inspect(|bytes| { self.count += u64::try_from(*bytes).unwrap(); }) }',
+         '`Counter::read` counts the bytes actually read'),
+    ])
+
+def gen_shapes_enc(repo):
+    return _shapes(repo, 'encoder-side shapes mirrored by Model/Writers.lean, Model/Finalize.lean, Model/Encode.lean', [
+        ('shapeSeekPointFrameSamples', 'encode.rs', 'byte_offset: Some(self.writer.count), frame_samples: frame.pcm_frames() as u16,',
+         'a recorded seek point carries the length of the frame just written'),
+        ('shapeFixedFallsThroughToVerbatimCheck', 'encode.rs', 'wasted_bps, ) { Ok(()) => fixed_output, Err(_) => { verbatim_output.clear();',
+         'without LPC the FIXED candidate still goes through the comparison with the verbatim length'),
+        ('shapeByteWriterConvertsPerBlock', 'encode.rs', '.chunks_exact_mut(self.frame_byte_size) { E::bytes_to_le(buf, self.bytes_per_sample);',
+         '`FlacByteWriter::write` converts the byte order of each block once, inside the block loop'),
+    ])
 
 GENERATORS = [
     ('Crc.lean', 'crc.rs CRC tables and update', gen_crc),
@@ -1066,6 +1143,10 @@ GENERATORS = [
     ('Kernels.lean', 'decode.rs / encode.rs arithmetic kernels', gen_kernels),
     ('EncConst.lean', 'encode.rs option ranges, limits and the declared-length checks', gen_encconst),
     ('Meta.lean', 'metadata constants, cue sheet limits and shape-checked facts', gen_meta),
+    ('Par.lean', 'parallel feature facts', gen_par),
+    ('ShapesHdr.lean', 'frame header shapes', gen_shapes_hdr),
+    ('ShapesRd.lean', 'reader shapes', gen_shapes_rd),
+    ('ShapesEnc.lean', 'encoder-side shapes', gen_shapes_enc),
 ]
 
 def main():
